@@ -100,11 +100,62 @@ def vector_frame(ctx, rule="R16.3"):
                       "components are returned in that frame without being rotated back: the field is not divergence-free in the user's coordinates", "rotated-frame-vector")
 
 
+PERMUTING = ("transpose", "swapaxes", "moveaxis", "rollaxis", "flip", "fliplr", "flipud", "rot90", "roll")
+
+
+def position_layout(ctx, rule="R16.7"):
+    """The evaluation points reach the vector-field kernel in the documented (dim, n) layout: the unstructured branch of the position
+    setter stores the given array converted and reshaped to (dim, -1) only - no transposition or axis permutation anywhere in the value
+    it stores, on any path (a data-dependent transposition moves the points the field is evaluated at; a square array cannot tell)."""
+    from ..small import _sym_subst, expr_cases, find_ifs, sym_eval
+
+    prog = ctx.prog
+    ci = prog.cls("field/base.py", "Field")
+    st = ci.setters.get("pos")
+    if st is None:
+        raise AnalysisError("anchor vanished: Field.pos setter")
+    site = "field/base.py::Field.pos@set"
+    sel = find_ifs(st.body, "self.mesh_type == 'unstructured'")
+    if len(sel) != 1:
+        raise AnalysisError("anchor vanished: unstructured branch of the Field.pos setter")
+    arm = sel[0][1]
+    stores = [x for x in ast.walk(ast.Module(arm, [])) if isinstance(x, ast.Assign) and any(ast.unparse(t) == "self._pos" for t in x.targets)]
+    if not stores:
+        raise AnalysisError("anchor vanished: store of self._pos in the unstructured branch")
+    n = 0
+    for a in stores:
+        env = sym_eval(arm, stop=a)
+        val = _sym_subst(a.value, env)
+        for conds, txt in expr_cases(val):
+            n += 1
+            e = ast.parse(txt, mode="eval").body
+            perm = sorted({x.attr for x in ast.walk(e) if isinstance(x, ast.Attribute) and (x.attr in PERMUTING or x.attr in ("T", "mT"))}
+                          | {"[::-1]" for x in ast.walk(e) if isinstance(x, ast.Slice) and x.step is not None})
+            ctx.check(not perm, rule, site, "stored positions [%s] = %s: %s" % (", ".join(sorted(conds)) or "always", txt[:90], "axis-permuting operations %s" % perm if perm else "conversion and reshape only"),
+                      "permute:%s" % ",".join(perm))
+            outer = e
+            shp = None
+            if isinstance(outer, ast.Call) and isinstance(outer.func, ast.Attribute) and outer.func.attr == "reshape":
+                a_ = outer.args[1:] if ast.unparse(outer.func.value) == "np" else outer.args
+                a_ = a_[0].elts if len(a_) == 1 and isinstance(a_[0], ast.Tuple) else a_
+                shp = [ast.unparse(x) for x in a_]
+            ok = shp in (["self.dim", "-1"], ["self._dim", "-1"])
+            ctx.check(ok, rule, site, "the stored array is shaped (dim, -1): %s" % txt[:90], "shape")
+    ctx.floor(rule, "stored position values (unstructured)", n, 1)
+
+
 def run(ctx):
+    position_layout(ctx)
     from . import C15_kernels as _K
 
     _K.accumulator_reset(ctx, rule="R16.6")  # mode-summation kernels: phase reset per mode, every point and mode visited (shared with C15)
     _K.full_extent(ctx, rule="R16.6")
+    _K.zero_init(ctx, rule="R16.6")
+    from . import C15_bounds
+
+    C15_bounds.run(ctx, rule="R16.6", files=("field/summator.pyx",), floor=20)
+    _K.mode_terms(ctx, rule="R16.6")  # the weight multiplies the cosine AND the sine part of every mode
+    _K.double_precision(ctx, rule="R16.6")  # single-precision accumulators / phases lose the exactness the property states
     prog = ctx.prog
     fn = prog.func(SUM, "summate_incompr")
     site = SUM + "::summate_incompr"
